@@ -719,6 +719,9 @@ func (c *fnCtx) typeParams(fl *ast.FieldList) {
 // ---------------------------------------------------------------- generator entry
 
 func fnGenerate(f *ast.File, specs []string) (string, []string) {
+	if heapSpecs(specs) {
+		return fnHeapGenerate(f, specs) // the heap backend (fn_heap.go)
+	}
 	g := &fnGen{file: f, funcs: map[string]*fnFunc{}, byCall: map[string]*fnFunc{}, structs: map[string]*ast.TypeSpec{}, consts: pkgConsts(f),
 		ifaces: map[string]*ast.TypeSpec{}, named: map[string]*ast.TypeSpec{}, usedStructs: map[string]bool{}, recordText: map[string]string{}, writes: map[string][]string{},
 		foreign: map[string][]*ast.File{}, coqNames: map[*ast.TypeSpec]string{}, basicNamed: map[string]ast.Expr{},
